@@ -42,7 +42,7 @@ structure Conn where
   id : Nat
   kind : Kind
   cl : Cl := {}
-  lc : LC := ⟨true, false, 0⟩
+  lc : LC := ⟨true, false, 0, true⟩
   dropped : Bool := false
   stalled : Bool := false   -- peer stopped reading, tiny pipe: the (large) writes the scripts make fail, nothing else happens to it
 
@@ -212,6 +212,14 @@ def dstep (s : DS) (toks : List String) : DS × List String :=
         if id ≥ 16 || (s.conn id).isSome then badOp s else
         finishOp { s with conns := insertConn { id := id, kind := if k == "raw" then .raw else .rawpre,
                                                 cl := { normal := k == "raw" } } s.conns } []
+      else if k == "fbu" then
+        match s.conn id with
+        | some c =>
+          if c.kind == .lib && !c.dropped then
+            -- the update carries the SupportedMessages pseudo-rectangle: same list for every client
+            finishOp s [s!"sup{id}:{if c.lc.supportsCut then 1 else 0}1:same"]
+          else badOp s
+        | none => badOp s
       else if k == "stall" then
         match s.conn id with
         | some c =>
@@ -238,11 +246,15 @@ def dstep (s : DS) (toks : List String) : DS × List String :=
     match id.toNat? with
     | none => badOp s
     | some id =>
-      if k == "lib" || k == "fsrv" then
+      if k == "rawws" then
+        if id ≥ 16 || (s.conn id).isSome then badOp s else
+        finishOp { s with conns := insertConn { id := id, kind := .raw } s.conns } []
+      else if k == "wsfr" then (s, ["ok"])
+      else if k == "lib" || k == "fsrv" then
         if id ≥ 16 || (s.conn id).isSome then badOp s else
         let av := a.toNat?.getD 0
         let u := av % 2 == 1
-        let c : Conn := { id := id, kind := if k == "lib" then .lib else .fsrv, lc := ⟨av / 2 % 2 == 0, u, 0⟩ }
+        let c : Conn := { id := id, kind := if k == "lib" then .lib else .fsrv, lc := ⟨av / 2 % 2 == 0, u, 0, true⟩ }
         let s1 := { s with conns := insertConn c s.conns }
         if k == "lib" && u then
           serverInput s1 c [] ([2, 0, 0, 1] ++ be32 encExtendedClipboard)
@@ -273,9 +285,9 @@ def dstep (s : DS) (toks : List String) : DS × List String :=
           | some t =>
             if (c.kind != .lib && c.kind != .fsrv) || c.dropped then badOp s else
             let Z := mkZ s.ztab
-            let wire := if k == "csend" then some (cliSendClassic t) else cliSendUtf8 Z c.lc t
+            let wire := if k == "csend" then cliSendClassicIf c.lc t else cliSendUtf8 Z c.lc t
             match wire with
-            | none => finishOp s ["ret0"]
+            | none => finishOp s [if k == "csend" then "ret1" else "ret0"]
             | some w =>
               if c.kind == .lib then serverInput s c ["ret1"] w
               else finishOp s ["ret1", s!"ctx{c.id}:[{showCliWire Z t (k == "csend8")}]"]
